@@ -54,6 +54,11 @@ Theorem C12_vmdk_footer_accepts : forall hm uf fm, vmdk_footer_gate hm uf fm = O
 Proof. exact vmdk_footer_accepts. Qed.
 Print Assumptions C12_vmdk_footer_accepts.
 
+Theorem C12_vmx_pairs_accepts : forall ps, vmx_pairs_gate ps = Ok tt ->
+  exists pre post, ps = (pre ++ (true, true) :: post)%list /\ Forall (fun q => fst q = true) pre.
+Proof. exact vmx_pairs_accepts. Qed.
+Print Assumptions C12_vmx_pairs_accepts.
+
 Theorem C12_hyperv_accepts : forall h, hyperv_gate h = Ok tt ->
   (if hv2_seq h <? hv1_seq h then hv1_sig h else hv2_sig h) = 19406868 /\
   (if hv2_seq h <? hv1_seq h then hv1_ver h else hv2_ver h) = 1024 /\
